@@ -445,7 +445,13 @@ theorem inRd_shown : (v : PyVal) → (ctx : Ctx) → Trunc ctx → inRd v = true
         · exact hdict
   | .opaque _, _, _, h => by simp [inRd] at h
   | .timedelta _ _ _, _, _, h => by simp [inRd] at h
-  | .path _ _, _, _, h => by simp [inRd] at h
+  | .path cls posix, ctx, _, h => by
+      simp only [inRd] at h
+      simp only [shown]
+      split
+      · have hph : inRd (phCall (builtin nmStr)) = true := inRd_phCall _ (by decide)
+        rw [inRd, inRdL, inRdL, inRdK, hph]; simp [h]
+      · simpa [inRd] using h
 
 theorem inRdL_shown : (xs : List PyVal) → (ctx : Ctx) → Trunc ctx → inRdL xs = true → inRdL (shownL ctx xs) = true
   | [], _, _, _ => rfl
